@@ -247,8 +247,9 @@ def main(eng) -> int:
     exit_code = 0
     tree = core.tree_id() if unlisted else {}
     reported = 0
+    unconfirmed = 0
     for v in unlisted:
-        if reported >= MAX_CLASSES_REPORTED:
+        if reported >= MAX_CLASSES_REPORTED or reported + unconfirmed >= 2 * MAX_CLASSES_REPORTED:
             break
         idx, run_seed, case, sig, msg, digest = v
         viol = Violation(sig, msg)
@@ -260,10 +261,20 @@ def main(eng) -> int:
             exit_code = 1
             reported += 1
         else:
-            print(f"HARNESS-ERROR property={eng.PROPERTY}: violation did not replay in a fresh interpreter: {path}")
-            return 2
-    if len(unlisted) > reported:
-        print(f"({len(unlisted) - reported} further distinct violation classes not written out)")
+            # Not reproducible from the case alone: the outcome depended on what this worker process had
+            # executed before (process-global state in the library or in the harness).  Never shown as a
+            # violation; if nothing replayable is found in the batch the run ends as a harness failure.
+            unconfirmed += 1
+            print(f"UNCONFIRMED property={eng.PROPERTY}: a violation seen in a worker did not replay in a fresh interpreter (process-history dependent): {sviol.message[:300]}")
+            try:
+                os.remove(path)
+            except OSError:
+                pass
+    if len(unlisted) > reported + unconfirmed:
+        print(f"({len(unlisted) - reported - unconfirmed} further distinct violation classes not written out)")
+    if unconfirmed and exit_code == 0:
+        print(f"HARNESS-ERROR property={eng.PROPERTY}: {unconfirmed} violation class(es) seen in workers but none reproducible from its case alone")
+        return 2
 
     # ---------------------------------------------------------------- evidence
     wall = time.time() - t0
